@@ -181,3 +181,27 @@ def check_sentinel(ctx, config):
         ctx.anchor_missing('R5', 'struct ChunkFooter layout')
 
 
+    # ---- R6 the rounding helpers every alignment argument rests on compute what their names say (standalone, symbolic operands)
+    a1, a2 = ('param', 1), ('param', 2)
+    WANT = {
+        'round_up_to': lambda t, alts: set(map(repr, alts)) == {repr(NONE), repr(some(('app', 'round_up', a1, a2)))},
+        'round_down_to': lambda t, alts: t == ('app', 'round_down', a1, a2),
+        'round_up_to_unchecked': lambda t, alts: t == ('app', 'round_up', a1, a2),
+        'round_mut_ptr_down_to': lambda t, alts: t == ('app', 'round_down', a1, a2),
+        'round_mut_ptr_up_to_unchecked': lambda t, alts: lin(t) == lin(app('add', ('app', 'wsub', ('app', 'round_up', a1, a2), a1), a1)) or t == ('app', 'round_up', a1, a2),
+        'is_pointer_aligned_to': lambda t, alts: t in (('cmp', 'eq', ('app', 'round_down', a1, a2), a1), ('cmp', 'eq', a1, ('app', 'round_down', a1, a2)), ('cmp', 'eq', ('app', 'mod', a1, a2), C(0)), ('cmp', 'eq', C(0), ('app', 'mod', a1, a2))),
+    }
+    n6 = 0
+    for name, okf in WANT.items():
+        bs = [x for x in db.fn_bodies() if x['kind'] == 'fn' and x['meta'].get('name') == name and (x.get('span') or '').startswith('src/lib.rs')]
+        if not bs:
+            ctx.anchor_missing('R6', name)
+            continue
+        I6, r6 = arena.run_fn(ctx, bs[0]['id'], config)
+        alts = [t for t, _ in arena.alternatives(I6, r6.ret, set())] if r6.ret is not None else []
+        n6 += 1
+        if r6.ret is not None and okf(r6.ret, alts):
+            ctx.ok('R6', '%s computes the rounding its name says' % name, show(r6.ret)[:80])
+        else:
+            ctx.violation('R6', name, 'formula', '%s returns %s' % (name, show(r6.ret)[:120] if r6.ret is not None else None), bs[0].get('span'))
+    ctx.floor('R6', n6, 6, 'rounding / alignment helpers')
